@@ -313,6 +313,7 @@ type simTransport struct {
 	// next upload request's body fault (consumed by the next POST)
 	cuts         map[string]armedCut // per client: body fault of its next POST
 	lastCutClass map[string]string   // per client
+	lastCutInFile map[string]bool    // per client: the body ended inside the content of a part that is a file
 	reqN    int
 	dead    bool
 	// census of the last POST body
@@ -331,6 +332,18 @@ type simBody struct {
 	seen  []byte // bytes delivered so far (to classify where a cut fell)
 	bound string
 	who   string
+}
+
+// cutInFile: the part in which the body ended is a file part (its headers name the form field "file").
+func (b *simBody) cutInFile() bool {
+	d := []byte("--" + b.bound)
+	i := bytes.LastIndex(b.seen, d)
+	if i < 0 {
+		return false
+	}
+	after := b.seen[i+len(d):]
+	j := bytes.Index(after, []byte("\r\n\r\n"))
+	return j >= 0 && bytes.Contains(after[:j], []byte(`name="file"`))
 }
 
 // cutClass says where in the multipart stream the body ended.
@@ -365,12 +378,14 @@ func (b *simBody) Read(p []byte) (int, error) {
 			b.tr.r.Fault("request-body-ends-early-cleanly")
 			b.tr.mu.Lock()
 			b.tr.lastCutClass[b.who] = b.cutClass()
+			b.tr.lastCutInFile[b.who] = b.cutInFile()
 			b.tr.mu.Unlock()
 			return 0, io.EOF
 		}
 		b.tr.r.Fault("request-body-cut")
 		b.tr.mu.Lock()
 		b.tr.lastCutClass[b.who] = "broken:" + b.cutClass()
+		b.tr.lastCutInFile[b.who] = b.cutInFile()
 		b.tr.mu.Unlock()
 		return 0, io.ErrUnexpectedEOF
 	}
@@ -414,6 +429,7 @@ func (tr *simTransport) RoundTrip(req *http.Request) (*http.Response, error) {
 		}
 		tr.lastBodyBytes = 0
 		delete(tr.lastCutClass, who)
+		delete(tr.lastCutInFile, who)
 	}
 	dead := tr.dead
 	tr.mu.Unlock()
